@@ -86,6 +86,9 @@ def structural(chk):
     named = [(m["name"], m["async_"]) for m in shared] + table["async_only"] + table["core_inherited"]
     rep4 = chk.oracle.query([(4, [tr.to_wire(t), selfs, adapters]) for _, t in named])
     undisciplined = [n for (n, _), r in zip(named, rep4) if r != 1]
+    rep6 = chk.oracle.query([(6, tr.to_wire(m[k])) for m in shared for k in ("async_", "sync")])
+    unscoped = [m["name"] for i, m in enumerate(shared) if rep6[2 * i] != 1 or rep6[2 * i + 1] != 1]
+    chk.extra["temporaries_not_scoped"] = unscoped
     for n, _ in named:
         chk.count(("discipline", n))
     sync_only = [n for n, _ in table["sync_only"]]
@@ -105,9 +108,10 @@ def structural(chk):
                         async_nodes=tr.size(m["async_"]), canon_equal=m["name"] not in differing,
                         equal_after_erase_only=m["name"] not in erase_only))
     # kernel vs extraction: the two facts both decide
-    oracle_ok = differing == CONSTRUCTOR_EXCEPTIONS and not undisciplined
+    oracle_ok = differing == CONSTRUCTOR_EXCEPTIONS and not undisciplined and not unscoped
     if chk.proof is not None and chk.proof.ok and not oracle_ok:
-        chk.disagree(dict(kind="kernel-vs-extraction"), dict(differing=differing, undisciplined=undisciplined),
+        chk.disagree(dict(kind="kernel-vs-extraction"),
+                     dict(differing=differing, undisciplined=undisciplined, unscoped=unscoped),
                      "Props/C18.v checked", where="extracted canon/awaits_ok disagree with the kernel-checked table facts")
     # vm_compute cross-check of the extracted oracle on a sample of pairs
     k = 10 if chk.tier == "quick" else 40
@@ -118,7 +122,7 @@ def structural(chk):
     chk.vm_checked = n
     if not ok:
         chk.disagree(dict(kind="extraction-vs-vm_compute"), "extracted oracle", log, where="vm_compute cross-check")
-    suspects = (set(differing) - set(CONSTRUCTOR_EXCEPTIONS)) | set(undisciplined)
+    suspects = (set(differing) - set(CONSTRUCTOR_EXCEPTIONS)) | set(undisciplined) | set(unscoped)
     return table, suspects
 
 
@@ -157,6 +161,15 @@ def differential(chk, n_cases, boost, maxops):
         if i % max(1, n_cases // 3) == 0 and s.get("steps"):
             chk.sample(dict(kind="history", case=case, results=[st["result"] for st in s["steps"]][:14], equal=diff is None))
         if diff is not None:
+            # control: results that depend on the iteration order of sets of objects hashed by address differ
+            # between two runs of the SAME class; such a difference says nothing about the async twin
+            ctl = U.compare(s, U.run_sync(case))
+            again = [U.run_case(case)[0] for _ in range(2)]
+            if ctl is not None or not all(again):
+                flaky = chk.extra.setdefault("nondeterministic_cases_ignored", dict(count=0))
+                flaky["count"] += 1
+                flaky.setdefault("example", dict(case=case, sync_vs_sync=ctl, first=diff["what"]))
+                continue
             b = diff["first_bad_step"]
             opname = case["ops"][b][0] if 0 <= b < len(case["ops"]) else ("construct" if b < 0 else "final")
             key = f"{diff['what']} @ {opname}" + (" [conditional-links model]" if case["model"] == "cond" else "")
@@ -246,6 +259,7 @@ def main():
     chk.trusted = ["translator: translators/asyncdiff.py (Python ast -> coq/gen/AsyncGen.v, regenerated on this run)",
                    "harness/async_util.py recording adapters/watchers are equivalent pairs (same storage code; the async one "
                    "wraps it in coroutines exactly where the async interfaces of the tree under test declare `async def`)"]
+    chk.extra["repo_under_test"] = str(REPO)
     chk.build(translators=["asyncdiff"])
     global U
     try:
